@@ -65,6 +65,36 @@ func vc06Elt(r *lib.Rng) []byte {
 		v.Add(v, big.NewInt(int64(r.Intn(5)-2)))
 		v.Mod(v, top)
 		return vc06Bytes(v)
+	case 7, 8:
+		// limbs whose product with a ladder / reduction constant lands just
+		// below or just above a multiple of 2^64: the carries out of
+		// lo(x_i*c) + hi(x_{i-1}*c) that uniformly random or 0/1/2^64-1
+		// limbs practically never produce
+		c := uint64(lib.Pick(r, 39082, 39081, 2, 1))
+		b := make([]byte, fp.Size)
+		for i := 0; i < fp.Size; i += 8 {
+			var x uint64
+			switch r.Intn(5) {
+			case 0:
+				x = ^uint64(0)
+			case 1:
+				x = r.U64()
+			default:
+				j := new(big.Int).SetUint64(1 + r.U64()%c)
+				j.Lsh(j, 64)
+				j.Sub(j, big.NewInt(int64(r.Intn(int(2*c+2)))-int64(c)))
+				j.Div(j, new(big.Int).SetUint64(c))
+				if j.IsUint64() {
+					x = j.Uint64()
+				} else {
+					x = ^uint64(0)
+				}
+			}
+			for k := 0; k < 8 && i+k < fp.Size; k++ {
+				b[i+k] = byte(x >> (8 * k))
+			}
+		}
+		return b
 	case 6:
 		b := make([]byte, fp.Size)
 		if r.Bool() {
